@@ -223,6 +223,14 @@ theorem deg_ge_of_mem (m : List (V × V)) (x : V × V) (p : V) (h : x ∈ m) :
     · omega
     · have := ih h; omega
 
+theorem mem_ends_of_deg_pos (m : List (V × V)) (p : V) (h : 0 < deg m p) :
+    ∃ x ∈ m, x.1 = p ∨ x.2 = p := by
+  have : p ∈ ends m := List.count_pos_iff.mp h
+  unfold ends at this
+  obtain ⟨x, hx, hp⟩ := List.mem_flatMap.mp this
+  simp only [List.mem_cons, List.not_mem_nil, or_false] at hp
+  exact ⟨x, hx, hp.imp Eq.symm Eq.symm⟩
+
 omit [DecidableEq V] in
 theorem length_ends (m : List (V × V)) : (ends m).length = 2 * m.length := by
   induction m with
@@ -266,3 +274,489 @@ theorem tjoin_complete (dist : V → V → Nat) (hsymm : ∀ a b, dist a b = dis
   · rw [← hperm.length_eq, length_ends]
 
 end Qec.TJoin
+
+/-! ## the torus: the decoder's distance is a metric in which lattice neighbours are at distance ≤ 1 -/
+
+namespace Qec.ChainToric
+open Qec Qec.Dec Qec.Toric Qec.ToricLemmas Qec.TJoin Qec.NaiveDecode Qec.MwpmReduce
+
+/-- a representative of a residue class that lies in `(-m/2, m/2]` has the least absolute value -/
+theorem natAbs_le_of_congr {m t s : Int} (hm : 0 < m) (h1 : -m < 2 * t) (h2 : 2 * t ≤ m)
+    (h : t % m = s % m) : t.natAbs ≤ s.natAbs := by
+  have hd : m ∣ t - s := Int.dvd_of_emod_eq_zero (Int.emod_eq_emod_iff_emod_sub_eq_zero.mp h)
+  obtain ⟨k, hk⟩ := hd
+  rcases Int.lt_trichotomy k 0 with hneg | hz | hpos
+  · have := Int.mul_le_mul_of_nonneg_left (show k ≤ -1 by omega) (show 0 ≤ m by omega)
+    rw [Int.mul_neg, Int.mul_one] at this
+    omega
+  · subst hz
+    rw [Int.mul_zero] at hk
+    have : t = s := by omega
+    rw [this]
+  · have := Int.mul_le_mul_of_nonneg_left (show 1 ≤ k by omega) (show 0 ≤ m by omega)
+    rw [Int.mul_one] at this
+    omega
+
+/-- triangle inequality for the cyclic step -/
+theorem step_triangle {m : Int} (hm : 0 < m) (x y z : Int) :
+    (step m x z).natAbs ≤ (step m x y).natAbs + (step m y z).natAbs := by
+  have hb := step_bounds hm x z
+  have e1 := step_emod hm x y
+  have e2 := step_emod hm y z
+  have e3 := step_emod hm x z
+  have hs : (x + (step m x y + step m y z)) % m = z % m := by
+    rw [← Int.add_assoc, ← Int.emod_add_emod, e1, Int.emod_add_emod, e2]
+  have hc : (step m x z) % m = (step m x y + step m y z) % m := by
+    have : (x + step m x z) % m = (x + (step m x y + step m y z)) % m := by rw [e3, hs]
+    exact (emod_eq_iff_of_sub_eq (by omega)).mp this
+  have := natAbs_le_of_congr hm hb.1 hb.2 hc
+  omega
+
+/-- the decoder's distance with the lattice check dropped (a total function) -/
+def dist (R C : Int) (a b : Idx) : Nat := (step R a.2.1 b.2.1).natAbs + (step C a.2.2 b.2.2).natAbs
+
+theorem dist_symm (R C : Int) (hR : 0 < R) (hC : 0 < C) (a b : Idx) : dist R C a b = dist R C b a := by
+  unfold dist
+  rw [step_natAbs_comm R _ _ hR, step_natAbs_comm C _ _ hC]
+
+theorem dist_triangle (R C : Int) (hR : 0 < R) (hC : 0 < C) (a b c : Idx) :
+    dist R C a c ≤ dist R C a b + dist R C b c := by
+  unfold dist
+  have := step_triangle hR a.2.1 b.2.1 c.2.1
+  have := step_triangle hC a.2.2 b.2.2 c.2.2
+  omega
+
+/-- `ToricMWPMDecoder.distance`, totalised as in `toricWeightedEdges` -/
+def toricDistT (R C : Int) (a b : Idx) : Nat :=
+  match Toric.distance R C a b with | .ok d => d | .error _ => 0
+
+theorem toricDistT_eq (R C : Int) (a b : Idx) (hab : a.1 % 2 = b.1 % 2) : toricDistT R C a b = dist R C a b := by
+  unfold toricDistT
+  rw [distance_eq_ok R C a b hab]
+  rfl
+
+/-! ### every qubit of the torus is an edge between two plaquettes of either lattice -/
+
+theorem emod_eq_of_sub_eq_mul {m x y k : Int} (h : x - y = m * k) : x % m = y % m := by
+  rw [Int.emod_eq_emod_iff_emod_sub_eq_zero, h, Int.mul_emod_right]
+
+theorem step_one {m : Int} (hm : 2 ≤ m) (x y : Int) (h : (x + 1) % m = y % m) : step m x y = 1 :=
+  (step_unique (by omega) x y 1 h (by omega) (by omega)).symm
+
+theorem site_congr (R C : Int) (hR : 0 < R) (hC : 0 < C) (op : P1) (v : BVec) (s t : Idx)
+    (h : norm R C s = norm R C t) : site R C op v s = site R C op v t := by
+  unfold site
+  rw [(flatten_inj R C hR hC s t).mpr h]
+
+/-- the operator of the paths between plaquettes of lattice `l` -/
+def opOf (l : Int) : P1 := if l = 0 then P1.X else P1.Z
+
+/-- the two plaquettes of lattice `l` adjacent to the site `s`: for a site of the same lattice its
+    N and S neighbours, for a site of the other lattice its W and E neighbours -/
+def edge (R C : Int) (l : Int) (s : Idx) : Idx × Idx :=
+  if s.1 = l then ((l, (s.2.1 - 1) % R, s.2.2), (l, s.2.1, s.2.2))
+  else ((l, (s.2.1 - l) % R, (s.2.2 - 1 + l) % C), (l, (s.2.1 - l) % R, (s.2.2 + l) % C))
+
+theorem edge_spec (R C : Int) (hR : 2 ≤ R) (hC : 2 ≤ C) (l : Int) (hl : l = 0 ∨ l = 1) (s : Idx)
+    (hs : InLattice R C s) :
+    InLattice R C (edge R C l s).1 ∧ InLattice R C (edge R C l s).2 ∧
+    (edge R C l s).1.1 = l ∧ (edge R C l s).2.1 = l ∧
+    dist R C (edge R C l s).1 (edge R C l s).2 ≤ 1 ∧
+    path R C (identity R C) (edge R C l s).1 (edge R C l s).2 =
+      .ok (site R C (opOf l) (identity R C) s) := by
+  obtain ⟨s1, s2, s3, s4, s5, s6⟩ := hs
+  have hR0 : (0 : Int) < R := by omega
+  have hC0 : (0 : Int) < C := by omega
+  have hl2 : l % 2 = l := by omega
+  have hop : ∀ a : Idx, a.1 = l → pathOp R C a = opOf l := by
+    intro a ha
+    rw [pathOp_eq, ha, hl2]; rfl
+  unfold edge
+  by_cases hsl : s.1 = l
+  · rw [if_pos hsl]
+    dsimp only
+    have b1 := Int.emod_nonneg (s.2.1 - 1) (show R ≠ 0 by omega)
+    have b2 := Int.emod_lt_of_pos (s.2.1 - 1) hR0
+    have st1 : step R ((s.2.1 - 1) % R) s.2.1 = 1 :=
+      step_one hR _ _ (by rw [Int.emod_add_emod]; congr 1; omega)
+    have st2 : step C s.2.2 s.2.2 = 0 := step_eq_zero hC0 _ _ rfl
+    refine ⟨⟨by omega, by omega, b1, b2, s5, s6⟩, ⟨by omega, by omega, s3, s4, s5, s6⟩, rfl, rfl, ?_, ?_⟩
+    · simp only [dist, st1, st2]; decide
+    · rw [path_eq_ok R C _ _ _ (by rfl)]
+      dsimp only
+      rw [st1, st2, hop _ rfl]
+      congr 1
+      simp only [pathSites, sites, norm, show ¬((1 : Int) < 0) by decide, show ¬((0 : Int) < 0) by decide,
+        if_false, show Int.natAbs 1 = 1 from rfl, show Int.natAbs 0 = 0 from rfl, List.range_one,
+        List.range_zero, List.map_cons, List.map_nil, List.append_nil, List.foldl_cons, List.foldl_nil]
+      apply site_congr R C hR0 hC0
+      rw [norm_eq_iff]
+      dsimp only
+      refine ⟨by omega, ?_, by rw [Int.emod_emod]⟩
+      rw [Int.emod_emod, Int.add_assoc, Int.emod_add_emod]
+      congr 1
+      simp only [Int.natCast_zero]
+      omega
+  · rw [if_neg hsl]
+    dsimp only
+    have b1 := Int.emod_nonneg (s.2.1 - l) (show R ≠ 0 by omega)
+    have b2 := Int.emod_lt_of_pos (s.2.1 - l) hR0
+    have c1 := Int.emod_nonneg (s.2.2 - 1 + l) (show C ≠ 0 by omega)
+    have c2 := Int.emod_lt_of_pos (s.2.2 - 1 + l) hC0
+    have d1 := Int.emod_nonneg (s.2.2 + l) (show C ≠ 0 by omega)
+    have d2 := Int.emod_lt_of_pos (s.2.2 + l) hC0
+    have st1 : step R ((s.2.1 - l) % R) ((s.2.1 - l) % R) = 0 := step_eq_zero hR0 _ _ rfl
+    have st2 : step C ((s.2.2 - 1 + l) % C) ((s.2.2 + l) % C) = 1 :=
+      step_one hC _ _ (by rw [Int.emod_add_emod, Int.emod_emod]; congr 1; omega)
+    refine ⟨⟨by omega, by omega, b1, b2, c1, c2⟩, ⟨by omega, by omega, b1, b2, d1, d2⟩, rfl, rfl, ?_, ?_⟩
+    · simp only [dist, st1, st2]; decide
+    · rw [path_eq_ok R C _ _ _ (by rfl)]
+      dsimp only
+      rw [st1, st2, hop _ rfl]
+      congr 1
+      simp only [pathSites, sites, norm, show ¬((1 : Int) < 0) by decide, show ¬((0 : Int) < 0) by decide,
+        if_false, show Int.natAbs 1 = 1 from rfl, show Int.natAbs 0 = 0 from rfl, List.range_one,
+        List.range_zero, List.map_cons, List.map_nil, List.nil_append, List.foldl_cons, List.foldl_nil]
+      apply site_congr R C hR0 hC0
+      rw [norm_eq_iff]
+      dsimp only
+      rw [hl2]
+      refine ⟨by omega, ?_, ?_⟩
+      · rw [Int.emod_emod, Int.add_zero, Int.emod_add_emod]
+        congr 1
+        omega
+      · rw [Int.emod_emod]
+        have : (s.2.2 - 1 + l) % C - l + 1 + ((0 : Nat) : Int) = (s.2.2 - 1 + l) % C + (1 - l) := by
+          simp only [Int.natCast_zero]; omega
+        rw [this, Int.emod_add_emod]
+        congr 1
+        omega
+
+/-! ### an X-type (Z-type) operator is the product of single-qubit operators on its support -/
+
+theorem ext_getD (a b : BVec) (hl : a.length = b.length)
+    (h : ∀ j, j < a.length → a.getD j false = b.getD j false) : a = b := by
+  apply List.ext_getElem hl
+  intro j h1 h2
+  have := h j h1
+  simpa [List.getD_eq_getElem?_getD, List.getElem?_eq_getElem h1, List.getElem?_eq_getElem h2] using this
+
+/-- qubits with the X bit set / with the Z bit set -/
+def suppX (n : Nat) (v : BVec) : List Nat := (List.range n).filter fun i => v.getD i false
+def suppZ (n : Nat) (v : BVec) : List Nat := (List.range n).filter fun i => v.getD (n + i) false
+
+theorem supp_lt (n : Nat) (g : Nat → Bool) : ∀ f ∈ (List.range n).filter g, f < n := by
+  intro f hf
+  exact List.mem_range.mp (List.mem_filter.mp hf).1
+
+theorem supp_nodup (n : Nat) (g : Nat → Bool) : ((List.range n).filter g).Nodup :=
+  List.nodup_range.filter _
+
+theorem eq_applyOps_of_bits (n : Nat) (op : P1) (v : BVec) (g : Nat → Bool) (hv : v.length = 2 * n)
+    (hx : ∀ i, i < n → v.getD i false = (op.xBit && g i))
+    (hz : ∀ i, i < n → v.getD (n + i) false = (op.zBit && g i)) :
+    v = applyOps n op (zeros (2 * n)) ((List.range n).filter g) := by
+  have hlt := supp_lt n g
+  have hnd := supp_nodup n g
+  have hmem : ∀ i, i < n → decide (i ∈ (List.range n).filter g) = g i := by
+    intro i hi
+    cases hg : g i
+    · simp [List.mem_filter, hg]
+    · simp [List.mem_filter, hg, hi]
+  apply ext_getD
+  · simp [hv, zeros]
+  · intro j hj
+    rw [hv] at hj
+    by_cases hjn : j < n
+    · rw [getD_applyOps_x n op _ _ j (by simp [zeros]) hlt hjn, getD_zeros,
+        xsum_decide_eq_of_nodup _ _ hnd, hmem j hjn, hx j hjn]
+      simp
+    · obtain ⟨i, rfl⟩ : ∃ i, j = n + i := ⟨j - n, by omega⟩
+      have hi : i < n := by omega
+      rw [getD_applyOps_z n op _ _ i (by simp [zeros]) hlt, getD_zeros,
+        xsum_decide_eq_of_nodup _ _ hnd, hmem i hi, hz i hi]
+      simp
+
+theorem getD_xPart_lo (n : Nat) (v : BVec) (hv : v.length = 2 * n) (i : Nat) (hi : i < n) :
+    (xPart v).getD i false = v.getD i false := by
+  have h2 : v.length / 2 = n := by omega
+  simp only [xPart, xHalf, h2, List.getD_eq_getElem?_getD]
+  rw [List.getElem?_append_left (by simp; omega), List.getElem?_take, if_pos hi]
+
+theorem getD_xPart_hi (n : Nat) (v : BVec) (hv : v.length = 2 * n) (i : Nat) :
+    (xPart v).getD (n + i) false = false := by
+  have h2 : v.length / 2 = n := by omega
+  simp only [xPart, xHalf, zHalf, h2, List.getD_eq_getElem?_getD]
+  rw [List.getElem?_append_right (by simp)]
+  simp only [zeros, List.getElem?_replicate]
+  split <;> rfl
+
+theorem getD_zPart_lo (n : Nat) (v : BVec) (hv : v.length = 2 * n) (i : Nat) (hi : i < n) :
+    (zPart v).getD i false = false := by
+  have h2 : v.length / 2 = n := by omega
+  simp only [zPart, xHalf, zHalf, h2, List.getD_eq_getElem?_getD]
+  rw [List.getElem?_append_left (by simp [zeros]; omega)]
+  simp only [zeros, List.getElem?_replicate]
+  split <;> rfl
+
+theorem getD_zPart_hi (n : Nat) (v : BVec) (hv : v.length = 2 * n) (i : Nat) :
+    (zPart v).getD (n + i) false = v.getD (n + i) false := by
+  have h2 : v.length / 2 = n := by omega
+  simp only [zPart, xHalf, zHalf, h2, List.getD_eq_getElem?_getD]
+  rw [List.getElem?_append_right (by simp [zeros])]
+  simp only [zeros, List.getElem?_drop, List.length_replicate, List.length_take]
+  congr 2; omega
+
+theorem xPart_eq_applyOps (n : Nat) (v : BVec) (hv : v.length = 2 * n) :
+    xPart v = applyOps n P1.X (zeros (2 * n)) (suppX n v) :=
+  eq_applyOps_of_bits n P1.X (xPart v) _ (xPart_length v n hv)
+    (fun i hi => by rw [getD_xPart_lo n v hv i hi]; simp [P1.xBit])
+    (fun i _ => by rw [getD_xPart_hi n v hv i]; simp [P1.zBit])
+
+theorem zPart_eq_applyOps (n : Nat) (v : BVec) (hv : v.length = 2 * n) :
+    zPart v = applyOps n P1.Z (zeros (2 * n)) (suppZ n v) :=
+  eq_applyOps_of_bits n P1.Z (zPart v) _ (zPart_length v n hv)
+    (fun i hi => by rw [getD_zPart_lo n v hv i hi]; simp [P1.xBit])
+    (fun i _ => by rw [getD_zPart_hi n v hv i]; simp [P1.zBit])
+
+theorem bsfWt_xPart (n : Nat) (v : BVec) (hv : v.length = 2 * n) :
+    bsfWt (xPart v) = (suppX n v).length := by
+  rw [xPart_eq_applyOps n v hv]
+  exact bsfWt_applyOps_zeros n P1.X _ (by decide) (supp_lt n _) (supp_nodup n _)
+
+theorem bsfWt_zPart (n : Nat) (v : BVec) (hv : v.length = 2 * n) :
+    bsfWt (zPart v) = (suppZ n v).length := by
+  rw [zPart_eq_applyOps n v hv]
+  exact bsfWt_applyOps_zeros n P1.Z _ (by decide) (supp_lt n _) (supp_nodup n _)
+
+/-! ### from flat qubit numbers back to site indices -/
+
+/-- the site with flat qubit number `f` (the index list of the code is in flat order) -/
+def unflat (R C : Int) (f : Nat) : Idx := (indices R C).getD f (0, 0, 0)
+
+theorem nQubits_toNat (R C : Int) (hR : 0 < R) (hC : 0 < C) :
+    (nQubits R C).toNat = 2 * (R.toNat * C.toNat) := by
+  have : nQubits R C = ((2 * (R.toNat * C.toNat) : Nat) : Int) := by
+    unfold nQubits
+    push_cast
+    rw [Int.toNat_of_nonneg (show 0 ≤ R by omega), Int.toNat_of_nonneg (show 0 ≤ C by omega), Int.mul_assoc]
+  rw [this, Int.toNat_natCast]
+
+theorem unflat_spec (R C : Int) (hR : 0 < R) (hC : 0 < C) (f : Nat) (hf : f < (nQubits R C).toNat) :
+    InLattice R C (unflat R C f) ∧ flatNat R C (unflat R C f) = f := by
+  have hlen : f < (indices R C).length := by rw [length_indices, ← nQubits_toNat R C hR hC]; exact hf
+  have hget : (indices R C)[f]? = some (unflat R C f) := by
+    unfold unflat
+    rw [List.getD_eq_getElem?_getD, List.getElem?_eq_getElem hlen]; rfl
+  have hin : InLattice R C (unflat R C f) :=
+    (mem_indices R C _).mp (List.mem_of_getElem? hget)
+  refine ⟨hin, ?_⟩
+  have h2 := getElem?_indices R C _ hin
+  exact ((List.getElem?_inj hlen (indices_nodup R C)).mp (hget.trans h2.symm)).symm
+
+theorem applyOps_eq_sites (R C : Int) (hR : 0 < R) (hC : 0 < C) (op : P1) (fs : List Nat)
+    (hfs : ∀ f ∈ fs, f < (nQubits R C).toNat) :
+    applyOps (nQubits R C).toNat op (zeros (2 * (nQubits R C).toNat)) fs =
+      sites R C op (identity R C) (fs.map (unflat R C)) := by
+  rw [sites_eq_applyOps, identity_eq_zeros, List.map_map]
+  congr 1
+  symm
+  calc fs.map (flatNat R C ∘ unflat R C) = fs.map id :=
+        List.map_congr_left fun f hf => (unflat_spec R C hR hC f (hfs f hf)).2
+    _ = fs := List.map_id _
+
+/-! ### a site-list operator is the XOR of the one-step paths across its sites -/
+
+/-- edges (pairs of adjacent plaquettes of lattice `l`) of a list of sites -/
+def edges (R C : Int) (l : Int) (L : List Idx) : List (Idx × Idx) := L.map (edge R C l)
+
+theorem sites_eq_xorAll_paths (R C : Int) (hR : 2 ≤ R) (hC : 2 ≤ C) (l : Int) (hl : l = 0 ∨ l = 1)
+    (L : List Idx) (hL : ∀ s ∈ L, InLattice R C s) :
+    sites R C (opOf l) (identity R C) L =
+      xorAll (2 * ToricL.nq R C) ((edges R C l L).map fun x => ToricL.pathT R C x.1 x.2) := by
+  have h1 := foldl_step_eq_xorAll (2 * ToricL.nq R C) (site R C (opOf l))
+    (fun v x h => by rw [ToricL.site_length, h]) (fun v x h => ToricL.site_xor R C _ v x h) L
+  unfold sites
+  rw [identity_eq_zeros]
+  refine h1.trans ?_
+  unfold edges
+  rw [List.map_map]
+  congr 1
+  apply List.map_congr_left
+  intro s hs
+  have := (edge_spec R C hR hC l hl s (hL s hs)).2.2.2.2.2
+  exact (ToricL.pathT_of_ok R C _ _ _ this).symm
+
+/-! ### the error chain of lattice `l`: sites, edges, syndrome -/
+
+/-- the X-component (lattice 0, primal plaquettes = Z-type stabilizers) resp. Z-component
+    (lattice 1, dual plaquettes) of an error -/
+def part (l : Int) (e : BVec) : BVec := if l = 0 then xPart e else zPart e
+
+/-- the sites on which that component acts -/
+def chainSites (R C : Int) (l : Int) (e : BVec) : List Idx :=
+  (if l = 0 then suppX (ToricL.nq R C) e else suppZ (ToricL.nq R C) e).map (unflat R C)
+
+/-- the component as an edge set of the lattice graph of plaquettes of lattice `l` -/
+def chainEdges (R C : Int) (l : Int) (e : BVec) : List (Idx × Idx) := edges R C l (chainSites R C l e)
+
+theorem part_length (R C : Int) (l : Int) (e : BVec) (he : e.length = 2 * ToricL.nq R C) :
+    (part l e).length = 2 * ToricL.nq R C := by
+  unfold part; split
+  · exact xPart_length e _ he
+  · exact zPart_length e _ he
+
+theorem chainSites_inLattice (R C : Int) (hR : 0 < R) (hC : 0 < C) (l : Int) (e : BVec) :
+    ∀ s ∈ chainSites R C l e, InLattice R C s := by
+  intro s hs
+  unfold chainSites at hs
+  obtain ⟨f, hf, rfl⟩ := List.mem_map.mp hs
+  refine (unflat_spec R C hR hC f ?_).1
+  split at hf
+  · exact supp_lt _ _ f hf
+  · exact supp_lt _ _ f hf
+
+theorem part_eq_sites (R C : Int) (hR : 0 < R) (hC : 0 < C) (l : Int) (hl : l = 0 ∨ l = 1) (e : BVec)
+    (he : e.length = 2 * ToricL.nq R C) :
+    part l e = sites R C (opOf l) (identity R C) (chainSites R C l e) := by
+  unfold part chainSites opOf
+  rcases hl with rfl | rfl
+  · rw [if_pos rfl, if_pos rfl, if_pos rfl, xPart_eq_applyOps _ e he]
+    exact applyOps_eq_sites R C hR hC _ _ (supp_lt _ _)
+  · rw [if_neg (by decide), if_neg (by decide), if_neg (by decide), zPart_eq_applyOps _ e he]
+    exact applyOps_eq_sites R C hR hC _ _ (supp_lt _ _)
+
+theorem chainEdges_length (R C : Int) (l : Int) (hl : l = 0 ∨ l = 1) (e : BVec)
+    (he : e.length = 2 * ToricL.nq R C) : (chainEdges R C l e).length = bsfWt (part l e) := by
+  unfold chainEdges edges chainSites part
+  rw [List.length_map, List.length_map]
+  rcases hl with rfl | rfl
+  · rw [if_pos rfl, if_pos rfl, bsfWt_xPart _ e he]
+  · rw [if_neg (by decide), if_neg (by decide), bsfWt_zPart _ e he]
+
+theorem chainEdges_spec (R C : Int) (hR : 2 ≤ R) (hC : 2 ≤ C) (l : Int) (hl : l = 0 ∨ l = 1) (e : BVec) :
+    ∀ x ∈ chainEdges R C l e, ToricL.Ok R C x.1 x.2 ∧ x.1.1 = l ∧ x.2.1 = l ∧ dist R C x.1 x.2 ≤ 1 := by
+  intro x hx
+  unfold chainEdges edges at hx
+  obtain ⟨s, hs, rfl⟩ := List.mem_map.mp hx
+  obtain ⟨h1, h2, h3, h4, h5, _⟩ :=
+    edge_spec R C hR hC l hl s (chainSites_inLattice R C (by omega) (by omega) l e s hs)
+  exact ⟨⟨(mem_indices R C _).mpr h1, (mem_indices R C _).mpr h2, h3.trans h4.symm⟩, h3, h4, h5⟩
+
+theorem part_eq_xorAll (R C : Int) (hR : 2 ≤ R) (hC : 2 ≤ C) (l : Int) (hl : l = 0 ∨ l = 1) (e : BVec)
+    (he : e.length = 2 * ToricL.nq R C) :
+    part l e = xorAll (2 * ToricL.nq R C) ((chainEdges R C l e).map fun x => ToricL.pathT R C x.1 x.2) := by
+  rw [part_eq_sites R C (by omega) (by omega) l hl e he]
+  exact sites_eq_xorAll_paths R C hR hC l hl _ (chainSites_inLattice R C (by omega) (by omega) l e)
+
+/-- the syndrome of the component: a plaquette is a defect iff its degree in the chain is odd -/
+theorem synd_part (R C : Int) (hR : 2 ≤ R) (hC : 2 ≤ C) (H : ToricL.Spec R C) (l : Int)
+    (hl : l = 0 ∨ l = 1) (e : BVec) (he : e.length = 2 * ToricL.nq R C) :
+    synd (stabilizers R C) (part l e) =
+      (indices R C).map fun p => decide (deg (chainEdges R C l e) p % 2 = 1) := by
+  rw [part_eq_xorAll R C hR hC l hl e he]
+  exact Pairing.pairing (ToricL.pathSpec R C H) (chainEdges R C l e)
+    (fun x hx => (chainEdges_spec R C hR hC l hl e x hx).1)
+
+theorem deg_eq_zero_of_lattice (m : List (Idx × Idx)) (l : Int) (h : ∀ x ∈ m, x.1.1 = l ∧ x.2.1 = l)
+    (p : Idx) (hp : p.1 ≠ l) : deg m p = 0 := by
+  induction m with
+  | nil => rfl
+  | cons x xs ih =>
+    rw [deg_cons, ih (fun y hy => h y (by simp [hy]))]
+    have := h x (by simp)
+    rw [ind_ne (fun e => hp (by rw [← e]; exact this.1)), ind_ne (fun e => hp (by rw [← e]; exact this.2))]
+
+/-- **defects = odd-degree vertices**: the defects of lattice `l` in the syndrome of the whole error
+    are exactly the plaquettes of odd degree in the chain of lattice `l` -/
+theorem mem_toricDefects_iff (R C : Int) (hR : 2 ≤ R) (hC : 2 ≤ C) (H : ToricL.Spec R C) (l : Int)
+    (hl : l = 0 ∨ l = 1) (e : BVec) (he : e.length = 2 * ToricL.nq R C) (p : Idx) :
+    p ∈ toricDefects R C (synd (stabilizers R C) e) l ↔ deg (chainEdges R C l e) p % 2 = 1 := by
+  have hx := synd_part R C hR hC H 0 (.inl rfl) e he
+  have hz := synd_part R C hR hC H 1 (.inr rfl) e he
+  have hxl := xPart_length e _ he
+  have hzl := zPart_length e _ he
+  have hsum : synd (stabilizers R C) e = (indices R C).map fun p =>
+      xor (decide (deg (chainEdges R C 0 e) p % 2 = 1)) (decide (deg (chainEdges R C 1 e) p % 2 = 1)) := by
+    rw [← Pairing.xorV_map_map, ← hx, ← hz]
+    conv => lhs; rw [← xPart_xor_zPart e _ he]
+    exact C09.synd_add _ _ _ (by rw [hxl, hzl]) (by rw [hxl]; omega)
+      (fun r hr => by rw [ToricL.stabilizers_length R C r hr, hxl])
+  have hs0 := fun x hx => (chainEdges_spec R C hR hC 0 (.inl rfl) e x hx)
+  have hs1 := fun x hx => (chainEdges_spec R C hR hC 1 (.inr rfl) e x hx)
+  unfold toricDefects
+  rw [hsum]
+  have : syndromeToPlaquettes R C ((indices R C).map fun p =>
+      xor (decide (deg (chainEdges R C 0 e) p % 2 = 1)) (decide (deg (chainEdges R C 1 e) p % 2 = 1))) =
+      (indices R C).filter fun p =>
+      xor (decide (deg (chainEdges R C 0 e) p % 2 = 1)) (decide (deg (chainEdges R C 1 e) p % 2 = 1)) :=
+    filterMap_sel_map (indices R C) _
+  rw [this, List.mem_filter, List.mem_filter]
+  simp only [beq_iff_eq]
+  constructor
+  · rintro ⟨⟨_, hb⟩, hpl⟩
+    rcases hl with rfl | rfl
+    · rw [deg_eq_zero_of_lattice _ 1 (fun x hx => ⟨(hs1 x hx).2.1, (hs1 x hx).2.2.1⟩) p (by omega)] at hb
+      simpa using hb
+    · rw [deg_eq_zero_of_lattice _ 0 (fun x hx => ⟨(hs0 x hx).2.1, (hs0 x hx).2.2.1⟩) p (by omega)] at hb
+      simpa using hb
+  · intro hodd
+    obtain ⟨x, hx, hp⟩ := mem_ends_of_deg_pos (chainEdges R C l e) p (by omega)
+    rcases hl with rfl | rfl
+    · have hh := hs0 x hx
+      have hpl : p.1 = 0 := by rcases hp with rfl | rfl <;> [exact hh.2.1; exact hh.2.2.1]
+      have hpi : p ∈ indices R C := by rcases hp with rfl | rfl <;> [exact hh.1.1; exact hh.1.2.1]
+      refine ⟨⟨hpi, ?_⟩, hpl⟩
+      rw [deg_eq_zero_of_lattice _ 1 (fun x hx => ⟨(hs1 x hx).2.1, (hs1 x hx).2.2.1⟩) p (by omega)]
+      simpa using hodd
+    · have hh := hs1 x hx
+      have hpl : p.1 = 1 := by rcases hp with rfl | rfl <;> [exact hh.2.1; exact hh.2.2.1]
+      have hpi : p ∈ indices R C := by rcases hp with rfl | rfl <;> [exact hh.1.1; exact hh.1.2.1]
+      refine ⟨⟨hpi, ?_⟩, hpl⟩
+      rw [deg_eq_zero_of_lattice _ 0 (fun x hx => ⟨(hs0 x hx).2.1, (hs0 x hx).2.2.1⟩) p (by omega)]
+      simpa using hodd
+
+/-! ### the chain induces a perfect matching of the decoder's graph -/
+
+theorem cost_congr {V : Type} (f g : V → V → Nat) (m : List (V × V))
+    (h : ∀ x ∈ m, f x.1 x.2 = g x.1 x.2) : cost f m = cost g m := by
+  unfold cost
+  congr 1
+  exact List.map_congr_left h
+
+theorem toricDefects_nodup (R C : Int) (s : BVec) (l : Int) : (toricDefects R C s l).Nodup := by
+  unfold toricDefects
+  exact (Pairing.pick_nodup _ _ (indices_nodup R C)).filter _
+
+/-- **chain → matching on the torus** (helper form): the defects of lattice `l` of ANY error `e` have
+    a perfect matching in the decoder's graph (complete graph on the defects) whose total decoder
+    distance is at most the weight of the component of `e` that causes them; in particular their
+    number is even -/
+theorem chain_matching (R C : Int) (hR : 2 ≤ R) (hC : 2 ≤ C) (H : ToricL.Spec R C) (l : Int)
+    (hl : l = 0 ∨ l = 1) (e : BVec) (he : e.length = 2 * ToricL.nq R C) :
+    ∃ M : List (Idx × Idx),
+      isPerfectMatchingOfGraph (toricNodes (toricDefects R C (synd (stabilizers R C) e) l))
+        (toricEdges (toricDefects R C (synd (stabilizers R C) e) l)) M = true ∧
+      cost (toricDistT R C) M ≤ bsfWt (part l e) ∧
+      (toricDefects R C (synd (stabilizers R C) e) l).length % 2 = 0 := by
+  have hR0 : (0 : Int) < R := by omega
+  have hC0 : (0 : Int) < C := by omega
+  obtain ⟨M, hpm, hc, hlen⟩ := tjoin_complete (dist R C) (dist_symm R C hR0 hC0) (dist_triangle R C hR0 hC0)
+    (chainEdges R C l e) (fun x hx => (chainEdges_spec R C hR hC l hl e x hx).2.2.2)
+    (toricDefects R C (synd (stabilizers R C) e) l) (toricDefects_nodup R C _ l)
+    (mem_toricDefects_iff R C hR hC H l hl e he)
+  have hev : (toricDefects R C (synd (stabilizers R C) e) l).length % 2 = 0 := by omega
+  refine ⟨M, ?_, ?_, hev⟩
+  · rw [ToricL.toricNodes_even _ hev]
+    exact hpm
+  · rw [chainEdges_length R C l hl e he] at hc
+    refine Nat.le_trans (Nat.le_of_eq ?_) hc
+    apply cost_congr
+    intro x hx
+    have hin : ∀ v ∈ ends M, v.1 = l := fun v hv =>
+      ((ToricL.mem_toricDefects R C _ l v).mp (pm_ends _ _ _ hpm v hv)).2
+    have h1 := hin x.1 (by unfold ends; exact List.mem_flatMap.mpr ⟨x, hx, by simp⟩)
+    have h2 := hin x.2 (by unfold ends; exact List.mem_flatMap.mpr ⟨x, hx, by simp⟩)
+    exact toricDistT_eq R C x.1 x.2 (by rw [h1, h2])
+
+end Qec.ChainToric
